@@ -356,7 +356,7 @@ def standard_compare(res, cases, impl, model, check_sodium=True, check_spec=True
                 res.violations.append({"kind": "impl-" + i.split(" ")[0].split("(")[0], "line": c.line, "answers": answers, "why": "implementation panicked/aborted/internally inconsistent"})
                 bad = True
         ib = i.split(" buf=")[0]   # spec / libsodium answers never carry the caller buffer
-        if check_spec and sp not in ("n/a", "bad-op") and ib != sp and not bad:
+        if check_spec and not c.meta.get("no_spec") and sp not in ("n/a", "bad-op") and ib != sp and not bad:
             res.violations.append({"kind": "impl!=spec", "line": c.line, "answers": answers, "why": "implementation differs from the Lean specification"})
             bad = True
         if check_sodium and not c.meta.get("no_sodium") and s not in ("n/a",) and ib != s and not bad:
@@ -369,7 +369,7 @@ def standard_compare(res, cases, impl, model, check_sodium=True, check_spec=True
                 bad = True
         if check_model and m not in ("n/a",) and i != m:
             res.corr_breaks.append({"line": c.line, "answers": answers})
-        if sp not in ("n/a", "bad-op") and m not in ("n/a",) and m.split(" buf=")[0] != sp:
+        if sp not in ("n/a", "bad-op") and m not in ("n/a",) and m.split(" buf=")[0] != sp and not c.meta.get("no_spec"):
             res.model_spec_breaks.append({"line": c.line, "answers": answers})
 
 
